@@ -5,10 +5,10 @@
 package c18
 
 import (
-	"errors"
 	"bufio"
 	"context"
 	"encoding/json"
+	"errors"
 	"os"
 	"sync"
 	"sync/atomic"
